@@ -58,3 +58,24 @@ simple("C19", "exploration",
        "record invariants transcribed from the statement",
        ["oracle: invariants from the statement (no external model)"],
        lambda tier: [parse_stage("C19"), hist_stage("C19")])
+
+simple("C08", "exploration",
+       "(input, base) in I x (I_base + none): I = all strings of <=3 tokens over a 37-token alphabet aimed at the can_parse "
+       "fast path (schemes, ports, brackets, xn--, tabs, non-ASCII), bases <=2 tokens (quick) / <=3 (thorough), inputs <=4/5 "
+       "tokens without base; E-byte at scheme/host/port positions; IPv4-looking hosts <=6/7 chars over {0,1,9,.,x,a,f}; "
+       "limit sweep L in 0..48 plus n, 3n, 3(n+m) edges (+-1) for every (input, base) of a smaller product; non-trivial = "
+       "parse succeeds; distinct = distinct (input, base, verdict)",
+       ["oracle: ada::parse<url_aggregator> of base then input under the same limit (C04 ties ada::url to it)"],
+       lambda tier: [{"name": "canparse-enum", "driver": "drv_canparse", "config": "rel", "sources": ["harness/drv_canparse.cpp"],
+                      "args": [], "kinds": ["canparse"]}])
+
+simple("C09", "exploration",
+       "limits L in {0..64,100,1024} x all strings of <=3/4 tokens over a 19-token growth alphabet (percent-encoding, IDNA, "
+       "IPv4 canonicalisation, added slashes, tabs) x (no base + 12 bases), critical limits (|in|, |href|, 3|in| +-1) for "
+       "<=5/6 tokens, 28 targeted shapes putting growth at every parser exit; then every (setter, value) of the menu on every "
+       "initial URL under every L (depth 1 quick / 2 thorough), both URL types; non-trivial = unlimited operation succeeds; "
+       "distinct = distinct (result, verdict, L)",
+       ["oracle: the same operation executed with no limit on a copy (differential); when only the input exceeds L the "
+        "statement leaves the outcome open and only the bound and atomicity are judged"],
+       lambda tier: [{"name": "limit-enum", "driver": "drv_limit", "config": "rel", "sources": ["harness/drv_limit.cpp"],
+                      "args": [], "kinds": ["limit-parse", "limit-hist"]}])
